@@ -314,7 +314,7 @@ def obligations(tier: str):
     stubs = ["lmfit.Parameters / MinimizerResult replaced by name->value mappings (add, valuesdict, var_names, params[name].value)",
              "pandas.DataFrame.from_dict replaced by a dictionary capture"]
     obs = []
-    lv = 3 if tier == "quick" else 4
+    lv = 3          # (4 levels multiply the table obligation beyond an hour; the thorough tier widens the element types instead)
     obs.append(Obligation("tables.%d" % lv, make_harness(lv, ["R", "C", "Tlm"] if tier == "quick" else ["R", "C", "Q", "Tlm"], False),
                           bounds="every nest of <= %d elements (depth <= 2; Tlm with nested sub-circuits), labels %r, fixed flags; one symbolic value per parameter" % (lv, LABELS),
                           functions=funcs, stubs=stubs, expect_reach=["identifiers", "table", "dataframe"], max_paths=1500000))
